@@ -437,6 +437,16 @@ func (ipfs *Connector) pinProgress(ctx context.Context, hash cid.Cid, maxDepth a
 				return ctx.Err()
 			default:
 				if err == io.EOF {
+					// Errors happening once the response
+					// has started are sent by ipfs as
+					// a trailer.
+					if errTrailer := res.Trailer.Get("X-Stream-Error"); errTrailer != "" {
+						return ipfsError{
+							path:    path,
+							code:    res.StatusCode,
+							Message: errTrailer,
+						}
+					}
 					return nil // clean exit. Pinned!
 				}
 				return err // error decoding
